@@ -154,10 +154,24 @@ pub fn funcs() -> Vec<(u32, &'static str, fn() -> FunctionCall)> {
 
 /// structural hash of a case node (FNV-1a over its text): decides, per node, which of several equivalent
 /// ways of building it is taken
+thread_local! {
+    static SALT: std::cell::Cell<u64> = std::cell::Cell::new(0);
+}
+/// called once per case line: the same node takes different paths in different cases, the same path when a
+/// case is replayed
+pub fn set_salt(line: &str) {
+    let h = line.bytes().fold(0xcbf29ce484222325u64, |h, b| (h ^ b as u64).wrapping_mul(0x100000001b3));
+    SALT.with(|c| c.set(h));
+}
 pub fn shash(s: &S) -> u64 {
+    let salt = SALT.with(|c| c.get());
+    let h = (shash0(s) ^ salt).wrapping_mul(0x9e3779b97f4a7c15);
+    h ^ (h >> 29)
+}
+fn shash0(s: &S) -> u64 {
     match s {
         S::A(x) => x.bytes().fold(0xcbf29ce484222325u64, |h, b| (h ^ b as u64).wrapping_mul(0x100000001b3)),
-        S::L(l) => l.iter().fold(0x9e3779b97f4a7c15u64, |h, x| (h ^ shash(x)).wrapping_mul(0x100000001b3).rotate_left(7)),
+        S::L(l) => l.iter().fold(0x9e3779b97f4a7c15u64, |h, x| (h ^ shash0(x)).wrapping_mul(0x100000001b3).rotate_left(7)),
     }
 }
 
